@@ -199,7 +199,7 @@ fn write_file(c: &Case, built: &Built, path: &str) -> Outcome {
     }
 }
 
-fn scratch_dir() -> String {
+pub fn scratch_dir() -> String {
     let d = format!("/tmp/fqv-c19-{}", std::process::id());
     let _ = std::fs::create_dir_all(&d);
     d
@@ -673,7 +673,98 @@ fn pipe_case(c: &Case, built: &Built, want: &[u8], path: &str, obs: &mut Obs) ->
     Ok(())
 }
 
+/// Two exports at the same time: one thread writes `<stem>.svg`, another `<stem>.png` (the same stem in the same
+/// directory - the two renderings of one code - or different stems), `rounds` times, released together by a barrier.
+/// Each destination is a different file, nothing is injected, so every call must return Ok and leave exactly its own
+/// in-memory rendering in its own file, whatever the other thread is doing (a shared temporary name, a shared
+/// buffer or a "last export" record would show here and nowhere in single-threaded use).
+pub fn check_concurrent(bc: &BuildCase, same_stem: bool, rounds: usize, obs: &mut Obs) -> Result<(), Fail> {
+    let built = match do_build(bc)? {
+        Ok(b) => b,
+        Err(_) => {
+            obs.label("no_symbol");
+            return Ok(());
+        }
+    };
+    let want_svg: Vec<u8> = catch(|| SvgBuilder::default().to_str(&built.qr).into_bytes()).map_err(|p| Fail { sig: panic_sig(&p), msg: format!("in-memory rendering panicked: {}", p) })?;
+    let want_png: Vec<u8> = match catch(|| ImageBuilder::default().to_bytes(&built.qr)) {
+        Ok(Ok(b)) => b,
+        Ok(Err(e)) => return fail("render_err", format!("in-memory rendering failed: {}", e)),
+        Err(p) => return fail(&panic_sig(&p), format!("in-memory rendering panicked: {}", p)),
+    };
+    static SEQ: std::sync::atomic::AtomicU64 = std::sync::atomic::AtomicU64::new(0);
+    let dir = format!("{}/conc-{}", scratch_dir(), SEQ.fetch_add(1, std::sync::atomic::Ordering::SeqCst));
+    let _ = std::fs::create_dir_all(&dir);
+    let pa = format!("{}/badge.svg", dir);
+    let pb = if same_stem { format!("{}/badge.png", dir) } else { format!("{}/other.png", dir) };
+    let barrier = std::sync::Barrier::new(2);
+    let qr = &built.qr;
+    // per round and writer: (what to_file returned, the file as read back right afterwards)
+    type Round = (Result<Result<(), String>, String>, Option<Vec<u8>>);
+    let (ra, rb): (Vec<Round>, Vec<Round>) = std::thread::scope(|s| {
+        let a = s.spawn(|| {
+            (0..rounds)
+                .map(|_| {
+                    let _ = std::fs::remove_file(&pa);
+                    barrier.wait();
+                    let r = catch(|| SvgBuilder::default().to_file(qr, &pa).map_err(|e| format!("{:?}", e)));
+                    let got = std::fs::read(&pa).ok();
+                    barrier.wait();
+                    (r, got)
+                })
+                .collect::<Vec<Round>>()
+        });
+        let b = s.spawn(|| {
+            (0..rounds)
+                .map(|_| {
+                    let _ = std::fs::remove_file(&pb);
+                    barrier.wait();
+                    let r = catch(|| ImageBuilder::default().to_file(qr, &pb).map_err(|e| format!("{}", e)));
+                    let got = std::fs::read(&pb).ok();
+                    barrier.wait();
+                    (r, got)
+                })
+                .collect::<Vec<Round>>()
+        });
+        (a.join().expect("svg export thread"), b.join().expect("png export thread"))
+    });
+    let _ = std::fs::remove_dir_all(&dir);
+    let case = || json!({"concurrent": {"build": bc.to_json(), "same_stem": same_stem, "rounds": rounds}});
+    for (wname, path, want, rs) in [("svg", &pa, &want_svg, &ra), ("png", &pb, &want_png, &rb)] {
+        for (i, (r, got)) in rs.iter().enumerate() {
+            match r {
+                Err(p) => return fail(&format!("panic:{}:concurrent", wname), format!("{} to_file panicked in round {} of two concurrent exports: {} ({})", wname, i, p, case())),
+                Ok(Err(e)) => return fail(&format!("spurious_error:{}:concurrent", wname), format!("{} to_file({}) failed in round {} although nothing but another export (to a different file) was going on: {} ({})", wname, path, i, e, case())),
+                Ok(Ok(())) => {
+                    let got = got.as_ref().ok_or_else(|| Fail { sig: format!("ok_but_unreadable:{}:concurrent", wname), msg: format!("{} to_file({}) returned Ok in round {} but there is no such file ({})", wname, path, i, case()) })?;
+                    ensure!(
+                        got == want,
+                        &format!("ok_but_differs:{}:concurrent", wname),
+                        "{} to_file({}) returned Ok in round {} of two concurrent exports but the file has {} bytes (starting {:02x?}) and the in-memory rendering {} ({})",
+                        wname,
+                        path,
+                        i,
+                        got.len(),
+                        &got[..got.len().min(8)],
+                        want.len(),
+                        case()
+                    );
+                }
+            }
+        }
+    }
+    obs.count("concurrent_export_rounds", rounds as u64);
+    obs.label(if same_stem { "concurrent_exports:same_stem" } else { "concurrent_exports:different_stems" });
+    obs.nontrivial(crate::engine::hash_bytes(format!("conc|{}|{:x}", same_stem, bc.hash()).as_bytes()));
+    obs.sample(if same_stem { "concurrent|same_stem" } else { "concurrent|different_stems" }, || json!({"case": case(), "svg_bytes": want_svg.len(), "png_bytes": want_png.len()}));
+    Ok(())
+}
+
 pub fn replay(_e: &Engine, case: &Value, obs: &mut Obs) -> Result<(), Fail> {
+    if let Some(cc) = case.get("concurrent") {
+        let bc = cc.get("build").and_then(BuildCase::from_json).ok_or_else(|| Fail { sig: "bad_replay".into(), msg: "cannot parse case".into() })?;
+        return check_concurrent(&bc, cc.get("same_stem").and_then(|x| x.as_bool()).unwrap_or(true), cc.get("rounds").and_then(|x| x.as_u64()).unwrap_or(30) as usize, obs);
+    }
     let c = from_json(case).ok_or_else(|| Fail { sig: "bad_replay".into(), msg: "cannot parse case".into() })?;
     check(&c, obs)
 }
@@ -720,7 +811,7 @@ pub fn run(e: &'static Engine) {
          the environment does not provide (probed first) are skipped and labelled, never asserted. Non-trivial: a fault was injected; \
          distinct by (writer, class, L bucket of 5%, QR).",
     );
-    e.extend_rule("the process works inside its scratch directory (logo.png, imgs/mark.png, out/ with different files of the same names): destinations absolute / relative / in the sub-directory, file-name extensions independent of the writer, PNG cases that really load an image (relative file, data URI, missing file); the writing renderer goes through the warm-up while the expected bytes come from a fresh one; existing-file classes (same length different head / tail, document plus extra bytes), symlink classes; the case is JSON-round-tripped before use. Pipe classes: the destination is a FIFO shrunk to the kernel's minimal capacity whose reader takes 16 bytes and goes away (a document longer than capacity + 16 + one page must be answered with an error; shorter ones are labelled unasserted) or drains everything (Ok, and the reader holds exactly the rendering).");
+    e.extend_rule("the process works inside its scratch directory (logo.png, imgs/mark.png, out/ with different files of the same names): destinations absolute / relative / in the sub-directory, file-name extensions independent of the writer, PNG cases that really load an image (relative file, data URI, missing file); the writing renderer goes through the warm-up while the expected bytes come from a fresh one; existing-file classes (same length different head / tail, document plus extra bytes), symlink classes; the case is JSON-round-tripped before use. Pipe classes: the destination is a FIFO shrunk to the kernel's minimal capacity whose reader takes 16 bytes and goes away (a document longer than capacity + 16 + one page must be answered with an error; shorter ones are labelled unasserted) or drains everything (Ok, and the reader holds exactly the rendering). Concurrent exports: two threads released by a barrier write <stem>.svg and <stem>.png of one code into one directory, 40 rounds per case; every call must return Ok and leave exactly its own rendering in its own file.");
     e.assume("the harness runs as root, for which file permissions do not apply: read-only locations are exercised through /proc, /sys, /dev/full, and through a child process that drops to uid/gid 65534 before writing into a 0555 directory / over a 0444 file (skipped and labelled if setuid is unavailable)");
     e.assume("RLIMIT_FSIZE with SIGXFSZ ignored makes the kernel return a partial write followed by EFBIG at exactly L");
     crate::engine::run_regress(e, &|c, o| replay(e, c, o));
@@ -788,6 +879,19 @@ pub fn run(e: &'static Engine) {
             jc.run_prop(1 << 20, &strat, total / shards, to_json, |c, o| {
                 o.label("part:generated");
                 check(c, o)
+            });
+        }));
+    }
+    e.par(jobs);
+    // two exports at the same time (the SVG and the PNG of one code, into one directory)
+    let conc_cases: u32 = e.tier.pick(4, 24);
+    let mut jobs: Vec<Job> = Vec::new();
+    for _ in 0..8 {
+        jobs.push(Box::new(move |jc: &mut JobCtx| {
+            let strat = ((0usize..24).prop_flat_map(|ci| case_in_cell(Cell::from_index(ci), Force { mode: false, level: true, version: false }, None)), prop_oneof![3 => Just(true), 1 => Just(false)]);
+            jc.run_prop(1 << 21, &strat, conc_cases, |((b, _), same)| json!({"concurrent": {"build": b.to_json(), "same_stem": same, "rounds": 40}}), |((b, _), same), o| {
+                o.label("part:concurrent_exports");
+                check_concurrent(b, *same, 40, o)
             });
         }));
     }
